@@ -32,6 +32,7 @@ func init() {
 			{"C13.grammar", "tar() emits Entry XAttr* (Payload|Symlink|Device|(Filename Child)* Goodbye)", 1, c13Grammar},
 			{"C13.string-terminator", "readString takes exactly the one terminating byte off a string element (shared with C05)", 1, c05StringTerminator},
 			{"C13.field-mapping", "what is packed is read from the entry being packed; the disk reader hands out clean paths (shared with C05)", 20, c05FieldMapping},
+			{"C13.wrapper-order", "a wrapping writer (bufio, tar) is flushed/closed before the pipe or file underneath it is closed (shared with C05)", 1, func(c *Ctx) { c.wrapperOrder() }},
 			{"C13.codec", "encoder and decoder agree on every element type", 15, func(c *Ctx) { c.codecAgree(allElementTypes) }},
 		},
 	})
